@@ -2,7 +2,7 @@
 import numpy as np
 
 from .. import casecheck
-from ..pool import contract, metadata_problem, core_arrays
+from ..pool import contract, metadata_problem, core_arrays, value_snapshot, value_changed
 
 ASSUME = [
     'islands of spec/LinSolve.tla: A = G^H G + 2 I (Hermitian positive definite by construction, integer TT cores), planted solution and guesses with full-rank interface matrices (a train with rank-deficient interfaces makes the projected systems singular, which is outside "initial guesses of any rank")',
@@ -18,14 +18,6 @@ RULE = ('TLC enumerates mode sizes, operator ranks, real/complex, every admissib
 
 def dense_vec(t):
     return contract(t.cores).reshape(-1)
-
-
-def snapshot(t):
-    return [c.copy() for c in t.cores]
-
-
-def changed(t, snap):
-    return len(t.cores) != len(snap) or any(a.shape != b.shape or not np.array_equal(a, b) for a, b in zip(t.cores, snap))
 
 
 def replay(case):
@@ -47,7 +39,7 @@ def replay(case):
         e = dense_vec(t) - xsd
         return float(np.real(e.conj() @ Ad @ e))
 
-    snaps = [snapshot(A), snapshot(b), snapshot(x0)]
+    snaps = [value_snapshot([t]) for t in (A, b, x0)]
     kind = ('cplx' if cfg['cplx'] else 'real')
     for name in ('als', 'mals'):
         if name == 'mals' and d < 2:
@@ -110,8 +102,9 @@ def replay(case):
                 out.append(('%s:exception:%s' % (tag, type(e).__name__), '%r (cfg dims %r rx %r r0 %r guess %s)' % (
                     e, cfg['dims'], cfg['rx'], cfg['r0'], cfg['guess'])))
     for t, s, nm in zip((A, b, x0), snaps, ('operator', 'right-hand side', 'initial guess')):
-        if changed(t, s):
-            out.append(('operand_changed', 'the %s was modified by the solver' % nm))
+        why = value_changed(s)
+        if why:
+            out.append(('operand_changed', 'the %s was modified by the solver (%s)' % (nm, why)))
     return out
 
 
